@@ -24,7 +24,7 @@ EXPLANATION = (
     "computed from the class table of common.py, attempt increment paired with every produce send, limit test "
     "dominating the retry timer, multiplicative back-off with a constant > 1 and unconditional reset."
 )
-SHARED = [('C07', ['R3', 'R5'], 'failed payloads are attributed to the right request')]
+SHARED = [('C07', ['R3', 'R5'], 'failed payloads are attributed to the right request'), ('C06', ['R5'], 'a produce attempt that timed out is not written later alongside its retry')]
 ASSUMPTIONS = [
     "Python list/dict(defaultdict)/zip preserve insertion order (language guarantee >= 3.7)",
     "Twisted fires chain stages in registration order",
